@@ -61,7 +61,7 @@ DoMyosin(e) ==
   /\ IF ~env.ok \/ ~ImageOK(env.E, e.img) \/ e.normalize \notin {"none", "average"}
      THEN EmitV(e, {}, {}, {}, {}, TRUE) /\ UNCHANGED <<prev, cache>>
      ELSE IF env.E.integrate /\ wts = <<>>
-     THEN EmitV(e, {"C17.no_impulse"}, {}, {}, {}, FALSE) /\ UNCHANGED <<prev, cache>>
+     THEN EmitV(e, {}, {}, {}, {}, TRUE) /\ UNCHANGED <<prev, cache>>   \* no weights: the Impulse event failed (reported there)
      ELSE LET E      == env.E
               linPre == LinPremise(E, e, prev)
               val    == ValsOf(E, e, linPre)
